@@ -12,6 +12,7 @@ import OrasModel.Driver.Pk
 import OrasModel.Driver.Cd
 import OrasModel.Driver.Au
 import OrasModel.Driver.Sc
+import OrasModel.Driver.Rf
 open Oras.Driver
 
 structure DState where
@@ -50,6 +51,9 @@ def handle (st : DState) (line : String) : DState × String :=
       | some (m, s) => (st, s!"m={m} s={s}")
       | none => (st, "bad-op"))
   | "sc" :: rest => (match Sc.step rest with
+      | some (m, s) => (st, s!"m={m} s={s}")
+      | none => (st, "bad-op"))
+  | "rf" :: rest => (match Rf.step rest with
       | some (m, s) => (st, s!"m={m} s={s}")
       | none => (st, "bad-op"))
   | "ref" :: rest => (match R.step rest with
